@@ -63,7 +63,7 @@ def main():
             print("demo passes on the patched tree")
         if a.tests:
             t0 = time.time()
-            rc, out = run("cd %s && /venv/bin/python -m pytest -q -p no:cacheprovider --timeout=900 %s" % (wt, a.tests),
+            rc, out = run(["bash", "-c", "cd %s && /venv/bin/python -m pytest -q -p no:cacheprovider --timeout=900 %s" % (wt, a.tests)],
                           env=env, cwd=wt)
             tail = [l for l in out.splitlines() if l.startswith("FAILED") or " passed" in l or " failed" in l]
             unexpected = [l for l in tail if l.startswith("FAILED") and not any(x in l for x in ALWAYS_FAIL)]
